@@ -384,17 +384,23 @@ def _patch_find(mod):
     f = mod.build_filtering_func
     if not getattr(f, '__wrapped_by_ztr__', False):
         mod.build_filtering_func = _wrap_bff(f)
-    if os.environ.get('ZTR_WALK_SHUFFLE'):
-        import random
-        real_os = mod.os
-        rng = random.Random(int(os.environ['ZTR_WALK_SHUFFLE']))
+    # enumeration-order fault: with ZTR_WALK_SHUFFLE=<seed> the code under
+    # test sees directory listings in a scrambled order
+    import random
+    real_os = mod.os
 
-        def walk(top, *a, **kw):
-            for dirpath, dirs, files in real_os.walk(top, *a, **kw):
-                rng.shuffle(dirs)
-                rng.shuffle(files)
-                yield dirpath, dirs, files
-        mod.os = _ModuleProxy(real_os, walk=walk)
+    def walk(top, *a, **kw):
+        seed = os.environ.get('ZTR_WALK_SHUFFLE')
+        if not seed:
+            yield from real_os.walk(top, *a, **kw)
+            return
+        rng = random.Random(int(seed))
+        count('walk.shuffled')
+        for dirpath, dirs, files in real_os.walk(top, *a, **kw):
+            rng.shuffle(dirs)
+            rng.shuffle(files)
+            yield dirpath, dirs, files
+    mod.os = _ModuleProxy(real_os, walk=walk)
 
 
 # ------------------------------------------------------------------- shuffle
